@@ -617,7 +617,7 @@ def register(reg):
             "forall(range(0, len(reactions)), lambda j: implies(not old(self._Balancer__solved_by_col in {R}) or old({R}[self._Balancer__solved_by_col]) == 'input-balanced', "
             "{R}[%s] == old({R}[%s])))".format(R=R) % (RC, RC),
         ]}},
-        props=["C01", "C03", "C04", "C06"])
+        props=["C01", "C02", "C03", "C04", "C05", "C06"])
 
     S = "self"
     def vcfg(v, method, carbon):
